@@ -67,6 +67,8 @@ class Ctx:
     def _matches(finding, key):
         if 'key' in finding and finding['key'] == key:
             return True
+        if 'keys' in finding and key in finding['keys']:
+            return True
         if 'key_re' in finding and re.fullmatch(finding['key_re'], key):
             return True
         return False
